@@ -1,7 +1,10 @@
 mod engine;
 mod fcmp;
 mod tape;
+mod tens;
 
+mod c14;
+mod c15;
 mod c18;
 
 use engine::{Engine, Tier};
@@ -21,6 +24,7 @@ fn main() {
     let mut seed: u64 = 0;
     let mut replay: Option<String> = None;
     let mut verif_dir = "/verif".to_string();
+    let mut out_dir: Option<String> = None;
     let mut i = 2;
     while i < args.len() {
         match args[i].as_str() {
@@ -44,6 +48,10 @@ fn main() {
                 i += 1;
                 verif_dir = args.get(i).cloned().unwrap_or_else(|| usage());
             }
+            "--out-dir" => {
+                i += 1;
+                out_dir = Some(args.get(i).cloned().unwrap_or_else(|| usage()));
+            }
             _ => usage(),
         }
         i += 1;
@@ -52,8 +60,11 @@ fn main() {
     // Library panics are part of what is observed (caught per case); keep stderr quiet.
     std::panic::set_hook(Box::new(|_| {}));
 
-    let eng = Engine::new(&id, tier, seed, &verif_dir);
+    let out_dir = out_dir.unwrap_or_else(|| verif_dir.clone());
+    let eng = Engine::new(&id, tier, seed, &verif_dir, &out_dir);
     let code = match id.as_str() {
+        "C14" => c14::run(&eng, replay.as_deref()),
+        "C15" => c15::run(&eng, replay.as_deref()),
         "C18" => c18::run(&eng, replay.as_deref()),
         _ => {
             eprintln!("unknown property {}", id);
